@@ -145,6 +145,20 @@ class OutFile(object):
                     out[-1].append(ln)
                 continue
             if isinstance(p, SymStr):
+                if isinstance(p.n, int) and any(c == 10 for c in p.chars[: p.n] if isinstance(c, int)):
+                    # a piece with concrete newline characters (e.g. a header line + "\n")
+                    cur = []
+                    for c in p.chars[: p.n]:
+                        if isinstance(c, int) and c == 10:
+                            if cur:
+                                out[-1].append(SymStr(cur, len(cur)))
+                            out.append([])
+                            cur = []
+                        else:
+                            cur.append(c)
+                    if cur:
+                        out[-1].append(SymStr(cur, len(cur)))
+                    continue
                 out[-1].append(p)
                 continue
             segs = p.split("\n")
